@@ -193,7 +193,8 @@ struct sm_type : C::manager::template impl< sm_type< C >, typename C::in_opt, ty
 // ------------------------------------------------------------------------------------------------------------------
 // events
 enum Kind : std::uint8_t { K_PDU, K_POLL, K_USER_YES, K_USER_NO, K_ENC_ON_PAIRING_KEY, K_ENC_ON_BOND_KEY, K_ENC_OFF,
-                           K_CFG_OOB_PRESENT, K_CFG_DB_SAME_PEER, K_CFG_DB_OTHER_PEER, K_CFG_DB_LESC_SAME_PEER };
+                           K_CFG_OOB_PRESENT, K_CFG_DB_SAME_PEER, K_CFG_DB_OTHER_PEER, K_CFG_DB_LESC_SAME_PEER,
+                           K_PREFIX_NC_EA_VERIFIED_ABORTED, K_PREFIX_NC_EA_VERIFIED_DECLINED, K_PREFIX_LEGACY_COMPLETED, K_PREFIX_LESC_COMPLETED };
 
 // variants of the PDUs
 enum { RQ_LEG_NOIO, RQ_LEG_KBDISP, RQ_LEG_OOB, RQ_LESC_NOIO, RQ_LESC_KBDISP, RQ_LESC_KBONLY, RQ_LESC_OOB,
@@ -217,6 +218,7 @@ enum : std::uint8_t { HOW_NONE, HOW_LEG_TK0, HOW_LEG_PASSKEY, HOW_LEG_OOB, HOW_L
 struct Ref
 {
     std::uint8_t phase, fresh;
+    std::uint8_t pairings;         // pairings started on this connection, saturates at 2
     std::uint8_t preq[ 7 ], pres[ 7 ];
     std::uint8_t conf_tk;          // temporary key the central built its last confirm value with, 0xff = garbage
     std::uint8_t tk_sm;            // temporary key the peripheral committed to in Sconfirm
@@ -312,6 +314,15 @@ struct World
                 other( K_CFG_DB_OTHER_PEER, "config: bond DB holds a bond of another peer" );
                 other( K_CFG_DB_LESC_SAME_PEER, "config: bond DB holds a LESC bond (ediv=rand=0) of this peer" );
             }
+            // scripted prefixes: additional start states "after an earlier pairing on this connection"; every step of a prefix
+            // runs through the same real calls and the same oracles as a single event
+            if ( lesc && C::in == 1 && C::out == 1 )
+            {
+                other( K_PREFIX_NC_EA_VERIFIED_ABORTED,  "prefix: numeric comparison pairing, correct DHKey check arrives while the user is asked, central aborts with Pairing Failed" );
+                other( K_PREFIX_NC_EA_VERIFIED_DECLINED, "prefix: numeric comparison pairing, correct DHKey check arrives while the user is asked, user answers no, poll" );
+            }
+            if ( legacy ) other( K_PREFIX_LEGACY_COMPLETED, "prefix: completed legacy just works pairing" );
+            if ( lesc )   other( K_PREFIX_LESC_COMPLETED, "prefix: completed LESC pairing without user interaction" );
         }
     }
 
@@ -472,10 +483,50 @@ struct World
     bool cd_encrypted_impl( long ) { return false; }
 
     // ----- one step
+    int find_ev( Kind k, std::uint8_t op = 0, std::uint8_t var = 0 ) const
+    {
+        for ( std::size_t i = 0; i != evs.size(); ++i )
+            if ( evs[ i ].kind == k && ( k != K_PDU || ( evs[ i ].op == op && evs[ i ].var == var ) ) ) return int( i );
+        return -1;
+    }
+
     bool apply( int i, mc::Ctx& c )
     {
         const Ev& e = evs[ i ];
-        failed_mask = 0; completed_this_step = false;
+        failed_mask = 0;
+        if ( e.kind >= K_PREFIX_NC_EA_VERIFIED_ABORTED )
+        {
+            if ( !ref.fresh ) return false;
+            std::vector< int > script;
+            switch ( e.kind )
+            {
+            case K_PREFIX_NC_EA_VERIFIED_ABORTED: case K_PREFIX_NC_EA_VERIFIED_DECLINED:
+                script = { find_ev( K_PDU, 1, RQ_LESC_KBDISP ), find_ev( K_PDU, 0x0c, PK_VALID ), find_ev( K_POLL ), find_ev( K_PDU, 4, RN_A ), find_ev( K_PDU, 0x0d, DH_OK ) };
+                if ( e.kind == K_PREFIX_NC_EA_VERIFIED_ABORTED ) script.push_back( find_ev( K_PDU, 0x05, 0 ) );
+                else { script.push_back( find_ev( K_USER_NO ) ); script.push_back( find_ev( K_POLL ) ); }
+                break;
+            case K_PREFIX_LEGACY_COMPLETED:
+                script = { find_ev( K_PDU, 1, RQ_LEG_NOIO ), find_ev( K_PDU, 3, CF_TK0 ), find_ev( K_PDU, 4, RN_A ) };
+                break;
+            default:
+                script = { find_ev( K_PDU, 1, RQ_LESC_NOIO ), find_ev( K_PDU, 0x0c, PK_VALID ), find_ev( K_POLL ), find_ev( K_PDU, 4, RN_A ), find_ev( K_PDU, 0x0d, DH_OK ) };
+            }
+            std::string obs;
+            for ( int k : script )
+            {
+                if ( k < 0 || !step( evs[ k ], c ) ) { c.fail( "harness:prefix-not-executable", e.name ); return true; }
+                obs += "[" + c.obs + "] ";
+                if ( !c.fails.empty() || c.prune ) break;
+            }
+            c.obs = obs;
+            return true;
+        }
+        return step( e, c );
+    }
+
+    bool step( const Ev& e, mc::Ctx& c )
+    {
+        completed_this_step = false;
         g_io.step_begin(); g_db.step_begin();
         bool enabled;
         if constexpr ( !has_sm ) enabled = apply_no_sm( e, c );
@@ -656,6 +707,7 @@ struct World
             if ( cd->state() != bluetoe::details::sm_pairing_state::idle )
             {
                 fail( c, 32, "order:state-not-idle-after-pairing-failed", mc::fmt( "Pairing Failed sent, pairing state is %d", int( cd->state() ) ) + where );
+                ref_to_idle();      // the reference's pairing is over; the key and status oracles judge this step against idle
                 return;
             }
             c.cls( mc::fmt( "rejected:%s:%s%s:in-%s:reason-%02x", pdu.c_str(), cls, sub, phase_name[ ref.phase ], out[ 1 ] ) );
@@ -681,6 +733,7 @@ struct World
         case 1:
             if ( !( on == 7 && out[ 0 ] == 2 ) ) { fail( c, 32, "order:wrong-response:pairing-request", "expected Pairing Response" + where ); return; }
             ref_to_idle();
+            if ( ref.pairings < 2 ) ++ref.pairings;
             std::copy( in, in + 7, ref.preq ); std::copy( out, out + 7, ref.pres );
             ref.phase = ( V == SMV_LESC || ( V == SMV_COMBINED && ( in[ 3 ] & 0x08 ) ) ) ? LESC_REQ : LEG_REQ;
             c.cls( mc::fmt( "accepted:pairing-request:%s:response-io%d-oob%d-auth%02x", ref.phase == LESC_REQ ? "lesc" : "legacy", out[ 1 ], out[ 2 ], out[ 3 ] ) );
@@ -764,7 +817,7 @@ struct World
         if ( ref.phase == LESC_RAND && ref.user == U_NO )
         {
             if ( !rejected ) return fail( c, 32, "order:no-pairing-failed:poll:user-declined", "user answered no; Pairing Failed expected" + where );
-            if ( cd->state() != bluetoe::details::sm_pairing_state::idle ) return fail( c, 32, "order:state-not-idle-after-pairing-failed", where );
+            if ( cd->state() != bluetoe::details::sm_pairing_state::idle ) { ref_to_idle(); return fail( c, 32, "order:state-not-idle-after-pairing-failed", where ); }
             c.cls( mc::fmt( "poll:pairing-failed-after-user-no:reason-%02x", out[ 1 ] ) );
             ref_to_idle();
             return;
@@ -774,22 +827,22 @@ struct World
             const bool eb_out = !silent && !rejected && out[ 0 ] == 0x0d;
             if ( ref.ea == EA_NONE )
             {
-                if ( eb_out ) return fail( c, 32, "order:eb-sent-without-verified-ea:ea-not-received", "user confirmed; the central's DHKey check Ea has not been received, but Eb is sent and the pairing completes" + where );
+                if ( eb_out ) return fail( c, 32, std::string( "order:eb-sent-without-verified-ea:ea-not-received" ) + ( ref.pairings > 1 ? "-in-a-later-pairing" : "" ), "user confirmed; the central's DHKey check Ea has not been received, but Eb is sent and the pairing completes" + where );
                 if ( !silent ) return fail( c, 32, "order:unexpected-output:poll", where );
                 c.cls( "poll:silent-user-yes-waiting-for-ea" );
                 return;
             }
             if ( ref.ea == EA_BAD )
             {
-                if ( eb_out ) return fail( c, 32, "order:eb-sent-without-verified-ea:wrong-ea-received-while-waiting", "a wrong DHKey check Ea arrived while the user was asked; after the user's yes Eb is sent and the pairing completes" + where );
+                if ( eb_out ) return fail( c, 32, std::string( "order:eb-sent-without-verified-ea:wrong-ea-received-while-waiting" ) + ( ref.pairings > 1 ? "-in-a-later-pairing" : "" ), "a wrong DHKey check Ea arrived while the user was asked; after the user's yes Eb is sent and the pairing completes" + where );
                 if ( !rejected ) return fail( c, 32, "order:no-pairing-failed:poll:wrong-dhkey-check", where );
-                if ( cd->state() != bluetoe::details::sm_pairing_state::idle ) return fail( c, 32, "order:state-not-idle-after-pairing-failed", where );
+                if ( cd->state() != bluetoe::details::sm_pairing_state::idle ) { ref_to_idle(); return fail( c, 32, "order:state-not-idle-after-pairing-failed", where ); }
                 ref_to_idle();
                 return;
             }
             if ( ref.ea == EA_AMBIGUOUS && rejected )
             {
-                if ( cd->state() != bluetoe::details::sm_pairing_state::idle ) return fail( c, 32, "order:state-not-idle-after-pairing-failed", where );
+                if ( cd->state() != bluetoe::details::sm_pairing_state::idle ) { ref_to_idle(); return fail( c, 32, "order:state-not-idle-after-pairing-failed", where ); }
                 ref_to_idle();
                 return;
             }
@@ -838,7 +891,7 @@ struct World
             { 0, 0 }, { 0, 1 }, { 1, 0 }, { 0xffff, ~0ull }, { NEW_EDIV, NEW_RAND }, { NEW_EDIV, 0 }, { 0, NEW_RAND }, { OLD_EDIV, OLD_RAND }, { OLD_EDIV, NEW_RAND } };
         // input class of an illegitimate offer: the implementation completed a pairing in a step the protocol oracle rejects /
         // no pairing is going on / a pairing is going on but not completed
-        const std::string when = failed( 32 ) ? "unverified-completion" : ref.phase == IDLE ? "idle" : ref.phase == DONE ? "completed" : "pairing-in-progress";
+        const std::string when = failed( 32 ) ? ( ref.phase == IDLE ? "after-pairing-failed" : "unverified-completion" ) : ref.phase == IDLE ? "idle" : ref.phase == DONE ? "completed" : "pairing-in-progress";
         for ( const auto& p : probes )
         {
             const auto got = cd->find_key( p.ediv, p.rand );
@@ -878,8 +931,9 @@ struct World
         }
         if ( g_db.stored ) c.cls( !ref.done ? "bond:stored-in-a-step-the-reference-does-not-complete" : ref.how >= HOW_LESC_NO_USER ? "bond:lesc-key-stored" : "bond:legacy-bond-created-and-stored" );
 
-        // C35: reported status
-        if ( !failed( 32 ) )
+        // C35: reported status ( not judged in a step in which the protocol oracle failed, except when the reference's pairing ended
+        //      with a Pairing Failed in this very step: then "no key" is what has to be reported )
+        if ( !failed( 32 ) || ref.phase == IDLE )
         {
             const int got = status_class( cd->local_device_pairing_status() );
             const int exp = ref.done ? ref.status : ST_NO_KEY;
